@@ -732,6 +732,7 @@ read(int fd, void *buf, size_t count) {
   if (fd < VFS_FD_BASE)
     return syscall(SYS_read, fd, buf, count);
   if (!f) { errno = EBADF; return -1; }
+  if ((f->flags & O_ACCMODE) == O_WRONLY) { errno = EBADF; return -1; }
   fc = fault_check(v, C_READ, ino_path(v, f->ino), count, &sn);
   if (fc == 1)
     return -1;
@@ -866,9 +867,17 @@ rename(const char *from, const char *to) {
     return 0;
   j = find_name(v, b);
   if (j >= 0) {
+    int fd_ = v->inodes[v->names[i].ino]->is_dir, td_ = v->inodes[v->names[j].ino]->is_dir;
+    if (v->names[j].ino == v->names[i].ino)
+      return 0; /* POSIX: both names are links to the same file: nothing happens */
+    if (!fd_ && td_) { errno = EISDIR; return -1; }
+    if (fd_ && !td_) { errno = ENOTDIR; return -1; }
+    if (fd_) vh_die("vfs: rename of a directory onto a directory is not modelled");
     del_name(v, j);
     i = find_name(v, a);
   }
+  if (v->inodes[v->names[i].ino]->is_dir)
+    vh_die("vfs: rename of a directory is not modelled (%s)", a);
   free(v->names[i].path);
   v->names[i].path = strdup(b);
   jadd(v, J_RENAME, v->names[i].ino, a, b);
@@ -1043,8 +1052,34 @@ opendir(const char *path) {
   vdir_t *d;
   int i;
   long sn;
-  if (!is_vpath(path))
-    vh_die("opendir on a real path: %s", path);
+  if (!is_vpath(path)) {
+    /* a real directory (environment-conformance driver): listed with getdents64 in the kernel's own order */
+    int fd = (int)syscall(SYS_openat, AT_FDCWD, path, O_RDONLY | O_DIRECTORY, 0);
+    char buf[8192];
+    long n;
+    if (fd < 0) return NULL;
+    d = calloc(1, sizeof(*d));
+    d->magic = VDIR_MAGIC;
+    d->names = malloc(64 * 1024);
+    d->pos = -2;
+    while ((n = syscall(SYS_getdents64, fd, buf, sizeof(buf))) > 0) {
+      long off = 0;
+      while (off < n) {
+        /* struct linux_dirent64: u64 ino, s64 off, u16 reclen, u8 type, char name[] */
+        unsigned short reclen;
+        const char *nm = buf + off + 19;
+        memcpy(&reclen, buf + off + 16, 2);
+        if (strcmp(nm, ".") != 0 && strcmp(nm, "..") != 0 && d->n < 1024) {
+          strncpy(d->names[d->n], nm, 63);
+          d->names[d->n][63] = 0;
+          d->n++;
+        }
+        off += reclen;
+      }
+    }
+    syscall(SYS_close, fd);
+    return (DIR *)d;
+  }
   norm(path, a, sizeof(a));
   if (fault_check(v, C_OPENDIR, a, 0, &sn) == 1)
     return NULL;
